@@ -32,7 +32,14 @@ fn public_key_parser_v4_v6<B: BufRead>(
     };
 
     let params = if let Some(pub_len) = pub_len {
-        PublicParams::try_from_reader(alg, Some(pub_len), i.read_take(pub_len))?
+        // Use the pub_len hint to make sure we consume no more or less
+        let mut public = i.read_take(pub_len);
+        let params = PublicParams::try_from_reader(alg, Some(pub_len), &mut public)?;
+        ensure!(
+            !public.has_remaining()?,
+            "PublicParams::try_from_reader didn't consume all data"
+        );
+        params
     } else {
         PublicParams::try_from_reader(alg, None, &mut i)?
     };
